@@ -102,6 +102,7 @@ def walk_direct(ctx, spec, rng):
     counts = {d: 0 for d in dsts}
     sched = []
     e = [some_entry(H)]
+    many = [some_entry(H, i) for i in range(40)]  # one send_sd call with many entries is one message with one id
 
     def body():
         while any(c < target for c in counts.values()):
@@ -116,7 +117,12 @@ def walk_direct(ctx, spec, rng):
                     ctx.count("empty_sends", 2)
                     if len(tr.sent) != before:
                         ctx.violation("empty-send-transmitted", dict(dst=d), dict(spec=spec))
-                prot.send_sd(e, remote=d)
+                near_wrap = 0xFFFF - 400 <= (counts[d] % 0xFFFF) + 1 <= 0xFFFF
+                if (near_wrap and ndst > 1 and rng.random() < 0.5) or rng.random() < 0.002:
+                    prot.send_sd(many[: rng.choice((2, 16, 22, 30, 40))], remote=d)
+                    ctx.count("sends_with_many_entries")
+                else:
+                    prot.send_sd(e, remote=d)
                 counts[d] += 1
 
     h.at(0.0, body)
